@@ -38,6 +38,12 @@ def gen_cases(rng, tier):
     for (H, ks, cs_) in ([(250.0, 1.0, 3.2e6)] if tier == "quick" else [(250.0, 1.0, 3.2e6), (330.0, 2.0, 3.9e6), (400.0, 1.5, 2343493.0)]):
         cs.append({"r_in": 0.01336, "r_out": 0.0167, "s": 0.012, "r_b": 0.06, "H": H, "k_soil": ks, "k_grout": 1.4, "k_pipe": 0.4, "rhocp_soil": cs_, "rhocp_grout": 3901000.0,
                    "m_flow": 0.3, "fine": True, "capture": [0, 1, 2, 300, 1300]})
+    # laminar flow in the tubes (Re < 2300: 0.05 kg/s of water in a 1-1/4 inch tube; a viscous antifreeze at a moderate flow), against the fine-mesh reference
+    cs.append({"r_in": 0.01702, "r_out": 0.02108, "s": 0.01856, "r_b": 0.075, "H": 100.0, "k_soil": 2.0, "k_grout": 1.0, "k_pipe": 0.4, "rhocp_soil": 2343493.0, "rhocp_grout": 3901000.0,
+               "m_flow": 0.05, "fine": True, "capture": [0, 1, 2, 200, 900]})
+    if tier != "quick":
+        cs.append({"r_in": 0.01336, "r_out": 0.0167, "s": 0.012, "r_b": 0.06, "H": 150.0, "k_soil": 2.8, "k_grout": 1.6, "k_pipe": 0.4, "rhocp_soil": 2.6e6, "rhocp_grout": 3.2e6,
+                   "m_flow": 0.03, "fine": True, "capture": [0, 1, 2, 300, 1100]})
     # the same object used for a second borehole (other height, fluid, grout)
     for k in range(1 if tier == "quick" else 4):
         cs.append({"r_in": 0.01336, "r_out": 0.0167, "s": 0.01, "r_b": 0.07, "H": rng.choice([80.0, 120.0]), "k_soil": 2.0, "k_grout": 1.0, "k_pipe": 0.4, "rhocp_soil": 2343493.0,
